@@ -364,7 +364,7 @@ impl<'a> Page<'a> {
                     let want_first = want.lines().next().unwrap_or("");
                     let got_rest: Vec<&str> = err.split('\n').skip(1).collect();
                     let want_rest: Vec<&str> = want.split('\n').skip(1).collect();
-                    if got_first != want_first || (!got_rest.is_empty() && got_rest != want_rest) {
+                    if got_first != want_first || got_rest != want_rest {
                         return Err(Violation::new(
                             "C19/error-differs",
                             format!("first-line-equal={}", got_first == want_first),
